@@ -115,6 +115,8 @@ func verifC15() {
 			files[dir+"x_more_test.go"] = "package " + verifC15Name(i) + "\n\nimport \"log\"\n\nvar T4 = log.Note(\"TESTFILE4 " + verifC15Name(i) + "\")\n"
 			files[dir+"excluded.go"] = "//go:build ignore\n\npackage " + verifC15Name(i) + "\n\nimport \"log\"\n\nvar E = log.Note(\"EXCLUDED " + verifC15Name(i) + "\")\n"
 			files[dir+"nongoat.go"] = "//go:build !goat\n\npackage " + verifC15Name(i) + "\n\nimport \"log\"\n\nvar N = log.Note(\"NONGOAT " + verifC15Name(i) + "\")\n"
+			// an excluded file may hold Go that is outside the script subset: it is not even parsed
+			files[dir+"native.go"] = "//go:build !goat\n\npackage " + verifC15Name(i) + "\n\nfunc Gen[T any](x T) T {\n\treturn x\n}\n\nvar ch = make(chan int, 1)\n\nfunc wait() int {\n\tselect {\n\tcase v := <-ch:\n\t\treturn v\n\tdefault:\n\t}\n\tgo wait()\n\treturn 0\n}\n"
 			files[dir+"goatonly.go"] = "//go:build goat\n\npackage " + verifC15Name(i) + "\n\nimport \"log\"\n\nvar G = log.Note(\"goat " + verifC15Name(i) + "\")\n"
 			// placement: a constraint counts only before the package clause (blank lines and line comments may precede it)
 			files[dir+"header.go"] = "// Copyright header\n// second line\n\n//go:build !goat\n\npackage " + verifC15Name(i) + "\n\nimport \"log\"\n\nvar H = log.Note(\"HEADERSKIP " + verifC15Name(i) + "\")\n"
